@@ -28,7 +28,7 @@ package searcher
 // (heap and matchingCurrs are separate allocations; an empty-capacity matchingCurrs has no storage)
 //@ spec noAlias(a []*SearcherCurr, b []*SearcherCurr) bool = cap(b) == 0 || base(a) != base(b)
 //@ spec rootIn(s *DisjunctionHeapSearcher) bool = implies(len(s.heap) > 0, dhas(s, s.heap[0]))
-//@ spec dhsShape(s *DisjunctionHeapSearcher) bool = s.initialized && ddistinct(s) && heapEntriesOK(s) && rootIn(s) && noAlias(s.heap, s.matchingCurrs)
+//@ spec dhsShape(s *DisjunctionHeapSearcher) bool = ddistinct(s) && heapEntriesOK(s) && rootIn(s) && noAlias(s.heap, s.matchingCurrs)
 //@ spec dhsInv(s *DisjunctionHeapSearcher) bool = dhsShape(s) && parkedOK(s, s.matchingCurrs, len(s.matchingCurrs))
 
 // ---- container/heap on a DisjunctionHeapSearcher (assumed; membership level) ----
@@ -63,22 +63,30 @@ package searcher
 //@   loop 0: invariant s.heap == old(s.heap) || base(s.heap) == old(base(s.heap))
 
 // ---- Advance: children behind the target are advanced, then the matches are recomputed ----
+// initSearchers builds the entries as pointers into one block ([]SearcherCurr): interior pointers
+// are outside gocv's heap model, so its contract is trusted (it establishes the invariant).
+//@ func DisjunctionHeapSearcher.initSearchers
+//@   props C08
+//@   mode int
+//@   trusted entries are interior pointers &block[i] into a slice of structs (outside the modelled subset)
+//@   requires s != nil && ctx != nil && ctx.DocumentMatchPool != nil && !s.initialized
+//@   modifies fields(DisjunctionHeapSearcher), fields(SearcherCurr), mem(*SearcherCurr), mem(*search.DocumentMatch), mem(int), fields(search.DocumentMatch), search.DocumentMatch.holder, search.Searcher.started, search.Searcher.last, search.Searcher.done, search.DocumentMatchPool.avail
+//@   ensures implies(result == nil, s.initialized && dhsInv(s))
 //@ func DisjunctionHeapSearcher.Next
 //@   props C08
 //@   mode int
 //@   trusted the merge loop of Next (scorer, heap order) is not under contract; Advance relies on this contract
-//@   requires s != nil && ctx != nil && ctx.DocumentMatchPool != nil && dhsInv(s)
+//@   requires s != nil && ctx != nil && ctx.DocumentMatchPool != nil && implies(s.initialized, dhsInv(s))
 //@   modifies fields(DisjunctionHeapSearcher), fields(SearcherCurr), mem(*SearcherCurr), mem(*search.DocumentMatch), mem(int), fields(search.DocumentMatch), search.DocumentMatch.holder, search.Searcher.started, search.Searcher.last, search.Searcher.done, search.DocumentMatchPool.avail
-//@   ensures implies(result1 == nil, dhsInv(s))
+//@   ensures implies(result1 == nil, s.initialized && dhsInv(s))
 
 //@ func DisjunctionHeapSearcher.Advance
 //@   props C08
 //@   mode int
-//@   prune
-//@   requires s != nil && ctx != nil && ctx.DocumentMatchPool != nil && dhsInv(s)
+//@   requires s != nil && ctx != nil && ctx.DocumentMatchPool != nil && implies(s.initialized, dhsInv(s))
 //@   modifies fields(DisjunctionHeapSearcher), fields(SearcherCurr), mem(*SearcherCurr), mem(*search.DocumentMatch), mem(int), fields(search.DocumentMatch), search.DocumentMatch.holder, search.Searcher.started, search.Searcher.last, search.Searcher.done, search.DocumentMatchPool.avail
 //@   at call searcherCurr.searcher.Advance#0 after: ghost result0.holder = searcherCurr
-//@   ensures implies(result1 == nil, dhsInv(s))
+//@   ensures implies(result1 == nil, s.initialized && dhsInv(s))
 //@   loop 0: invariant dhsShape(s) && s.matchingCurrs == old(s.matchingCurrs) && ctx.DocumentMatchPool != nil
 //@   loop 0: invariant forall(k, iter, len(s.matchingCurrs), entryOK(s.matchingCurrs[k]) && !dhas(s, s.matchingCurrs[k])) && forall(p, iter, len(s.matchingCurrs), forall(q, p+1, len(s.matchingCurrs), s.matchingCurrs[p] != s.matchingCurrs[q]))
 //@   loop 1: invariant dhsShape(s) && ctx.DocumentMatchPool != nil && parkedOK(s, s.matchingCurrs, len(s.matchingCurrs))
